@@ -24,6 +24,8 @@ Statements:
   ["fget", f] ["fset", f, v] FlowVar f
   ["call", R, n]      drive inner (not played) routine R with next() n times
   ["pause", rid, d]   (C10) pause routine rid now and resume it d later ...
+  ["resched", rid, d] clock.sched(d, routine rid) while it is pending after a
+                      yield: the queue moves it (one wake-up, at now + d)
 """
 
 import random
@@ -113,6 +115,11 @@ class Gen:
                 break
             self.budget -= 1
             x = rng.random()
+            if 'resched' in self.features and rid > 0 and rng.random() < 0.07:
+                # re-schedule an older routine that is pending in its clock's
+                # queue: the queue moves it, it wakes once, at the new time
+                body.append(['resched', rng.randrange(rid), self.delta()])
+                continue
             if self.cond_heavy and not free and rng.random() < 0.3:
                 r_ = rng.random()
                 x = 0.87 if r_ < 0.45 else 0.93 if r_ < 0.6 else 0.98
@@ -295,6 +302,8 @@ class Run:
         self.flows = {}
         self.fsig = {}
         self.routines = {}
+        self.sts = {}
+        self.start_window = None
         self.addr = NetAddr('127.0.0.1', 57110)
         self.max_late = 0.0
         self.n_res = 0
@@ -317,9 +326,11 @@ class Run:
         self.fails.append(info)
 
     # ---- start --------------------------------------------------------
-    def start(self, at=None):
+    def start(self, at=None, delta=None):
         """Schedules the root routine (call from the main thread); at: absolute
-        logical start time (SystemClock seconds) instead of 'now'."""
+        logical start time (SystemClock seconds) instead of 'now'; delta: use
+        SystemClock.sched(delta, routine) from this (non clock) thread and keep
+        the interval of physical time in which the call was made."""
         run = self
 
         def root():
@@ -336,7 +347,12 @@ class Run:
             run._dec()
         self.live += 1
         r = self.stm.Routine(root)
-        if at is None:
+        if delta is not None:
+            c0 = self.main.elapsed_time()
+            self.clk.SystemClock.sched(delta, r)
+            c1 = self.main.elapsed_time()
+            self.start_window = (c0 + delta, c1 + delta)
+        elif at is None:
             r.play(self.clk.SystemClock)
         else:
             self.clk.SystemClock.sched_abs(at, r)
@@ -366,6 +382,7 @@ class Run:
             st['exp_secs'] = None
         else:
             st['exp_secs'] = parent_secs
+        self.sts[R['id']] = st
         rout = self.stm.Routine(self.make_body(R, st))
         if R.get('seed') is not None:
             rout.rand_seed = R['seed']
@@ -477,9 +494,19 @@ class Run:
         for s in stmts:
             op = s[0]
             if op == 'y':
+                st['in_yield'] = True
                 yield s[1]
-                self.advance(st, s[1])
-                self.resumed(st, 'yield')
+                st['in_yield'] = False
+                mv = st.pop('moved', None)
+                if mv is None:
+                    self.advance(st, s[1])
+                    self.resumed(st, 'yield')
+                else:
+                    if st['ci'] >= 0:
+                        st['exp_beats'] = mv
+                    else:
+                        st['exp_secs'] = mv
+                    self.resumed(st, 'moved')
             elif op == 'play':
                 self.spawn(s[1], parent_secs=self.now_secs())
             elif op == 'tempo':
@@ -492,11 +519,28 @@ class Run:
                 out = 'absent'
                 if tgt is not None:
                     try:
-                        getattr(tgt, op)()
+                        if op == 'resume' and len(s) > 2:
+                            tgt.resume(quant=s[2])      # 0: at the current beat
+                        else:
+                            getattr(tgt, op)()
                         out = 'ok'
                     except Exception as e:
                         out = type(e).__name__
                 self.log.append((op, st['rid'], s[1], out, self.now_secs() - self.T0))
+            elif op == 'resched':
+                tst = self.sts.get(s[1])
+                out = 'skip'
+                if tst is not None and tst.get('in_yield'):
+                    # pending in its clock's queue: scheduling it again moves it
+                    tclock = tst['clock']
+                    if tst['ci'] >= 0:
+                        tst['moved'] = tclock.beats + s[2]
+                    else:
+                        tst['moved'] = self.now_secs() + s[2]
+                    tclock.sched(s[2], self.routines[s[1]])
+                    out = 'moved'
+                self.log.append(('resched', st['rid'], s[1], out, s[2],
+                                 self.now_secs() - self.T0))
             elif op == 'send':
                 self.addr.send_bundle(s[1], ['/vf', self.tag * 100000 + s[2]])
                 self.log.append(('send', st['rid'], s[2], s[1],
